@@ -145,7 +145,7 @@ def secT (c : Cfg) (s0 : St) (i : Nat) (mis' : Nat) : St :=
     if mis' > 1 then setT { s0 with watchers := s0.watchers - 1 } i .exited
     else setT s0 i (.sleeping (s0.now + c.idle) mis' true)
   | some (id, fireT) =>
-    if s0.now > fireT then
+    if s0.now ≥ fireT then
       let heap' := s0.heap.filter (·.1 != id)
       let s1 : St := { s0 with heap := heap' }
       let spawn := match headOf heap' with
@@ -175,19 +175,19 @@ inductive SecOut (c : Cfg) (s : St) (i : Nat) (m : Nat) : St → Prop
       SecOut c s i m (setT { s with watchers := s.watchers - 1 } i .exited)
   | sleepIdle : headOf s.heap = none → m ≤ 1 →
       SecOut c s i m (setT s i (.sleeping (s.now + c.idle) m true))
-  | popSpawn (id fireT id2 t2 : Nat) : headOf s.heap = some (id, fireT) → fireT < s.now →
+  | popSpawn (id fireT id2 t2 : Nat) : headOf s.heap = some (id, fireT) → fireT ≤ s.now →
       headOf (s.heap.filter (·.1 != id)) = some (id2, t2) → t2 < s.now → s.watchers < c.maxWorkers →
       SecOut c s i m (setT { s with heap := s.heap.filter (·.1 != id), watchers := s.watchers + 1,
                                     threads := s.threads ++ [.top none 0] } i (.top (some id) m))
-  | pop (id fireT : Nat) : headOf s.heap = some (id, fireT) → fireT < s.now →
+  | pop (id fireT : Nat) : headOf s.heap = some (id, fireT) → fireT ≤ s.now →
       (∀ id2 t2, headOf (s.heap.filter (·.1 != id)) = some (id2, t2) → t2 < s.now →
         s.watchers < c.maxWorkers → False) →
       SecOut c s i m (setT { s with heap := s.heap.filter (·.1 != id) } i (.top (some id) m))
-  | exitBusy (id fireT : Nat) : headOf s.heap = some (id, fireT) → s.now ≤ fireT → 1 < s.watchers → 1 < m →
+  | exitBusy (id fireT : Nat) : headOf s.heap = some (id, fireT) → s.now < fireT → 1 < s.watchers → 1 < m →
       SecOut c s i m (setT { s with watchers := s.watchers - 1 } i .exited)
-  | sleepCapped (id fireT : Nat) : headOf s.heap = some (id, fireT) → s.now ≤ fireT → 1 < s.watchers → m ≤ 1 →
+  | sleepCapped (id fireT : Nat) : headOf s.heap = some (id, fireT) → s.now < fireT → 1 < s.watchers → m ≤ 1 →
       SecOut c s i m (setT s i (.sleeping (s.now + min (fireT - s.now) c.idle) m true))
-  | sleepUncapped (id fireT : Nat) : headOf s.heap = some (id, fireT) → s.now ≤ fireT → s.watchers ≤ 1 →
+  | sleepUncapped (id fireT : Nat) : headOf s.heap = some (id, fireT) → s.now < fireT → s.watchers ≤ 1 →
       SecOut c s i m (setT s i (.sleeping fireT m false))
 
 theorem secT_out (c : Cfg) (s : St) (i m : Nat) : SecOut c s i m (secT c s i m) := by
